@@ -216,3 +216,19 @@ PROPS["C05"] = simple(
                "after hops x (10T+5 s), otherwise it is reported as a hang. Cut points are enumerated exhaustively in the thorough tier.",
     level_note="Wall-clock decides because timeliness is the property; T = 1 s, bounds are 5x / 15x T per hop and stall cases run 16 at a time (they sleep). Trusted: the simulator's fault plans.",
 )
+
+PROPS["C09"] = simple(
+    "verifchk/c09", "TestVerifC09", "exploration",
+    "generated multi-host worlds (3 loopback TLS hosts, 3..6 actors, threads with ancestors, paged reply collections and outboxes, Create/Announce/Like/Dislike activities) in which "
+    "5..30 % of the mentions are anomalous: activity by another actor, without actor, not loading (404/garbage/500), foreign activity embedded with a forged id, bare post or number in an "
+    "outbox; reply to another post, without inReplyTo, parent differing only in its query, deleted/broken reply, actor or number among replies, reply with a foreign-host author; "
+    "entries mentioned by address, embedded, or as {id,type} stubs; empty pages, trailing broken page, missing collection. Every actor's outbox and every post's replies are harvested to "
+    "exhaustion in PRNG chunk sizes. Non-trivial: every listing; distinct = (owner, expected sequence).",
+    shards=dict(quick=8, thorough=16),
+    floor=dict(evaluations=500, distinct=300, genuine_entries_shown=500, impostors_shown_as_errors=100, authors_checked=100),
+    technique="runtime monitor: position-wise comparison of harvested listings with the generator's ground truth (reference views computed from the world specification)",
+    level_text="Every entry shown in a timeline or comment section is compared, position by position, with what the world's specification says may stand there: a genuine item only if the "
+               "activity's resolved actor is the owner / the reply's resolved parent is this post / the post's authors live on its host, an error item otherwise; missing or extra entries and "
+               "foreign-host authors are violations. Sampled.",
+    level_note="Trusted: kit/world (generator, materialisation and the reference views Resolve/Children). A genuine entry shown as an error item is not a violation of this statement ('only if'); it is counted (genuine_shown_as_error) and the run is inconclusive if few genuine entries are shown.",
+)
